@@ -1,0 +1,101 @@
+//go:build verif
+
+package core
+
+// Contracts for redis_pool.go, read by the rcvc verifier in /verif (comment-only; adds no code).
+// Abstract view of an activeList l: the sequence an(l, 0), ..., an(l, l.count-1) obtained by following `next`
+// from the front; the chain ends there (back.next == nil) and `prev` is its mirror image.
+
+//@ use queue
+
+//@ define an(l, k) = qnth(heap(poolConn.next), l.front, k)
+//@ define anp(l, k) = ref(poolConn, an(l, k))
+//@ define awf(l) = l.count >= 0 && qnth_unfold(heap(poolConn.next), l.front, 1)
+//@     && (l.count == 0 ==> l.front == nil && l.back == nil)
+//@     && (l.count > 0 ==> l.front != nil && l.back == an(l, l.count - 1) && l.back.next == nil && l.front.prev == nil)
+//@     && (forall i int :: 0 <= i && i < l.count ==> an(l, i) != nil && allocated(an(l, i)))
+//@     && (forall i int, j int :: 0 <= i && i < j && j < l.count ==> an(l, i) != an(l, j))
+//@     && (forall i int :: 0 < i && i < l.count ==> qnth_unfold(heap(poolConn.next), l.front, i) && anp(l, i).prev == an(l, i - 1))
+//@ define anotin(l, pc) = forall i int :: 0 <= i && i < l.count ==> an(l, i) != pc
+
+//@ func activeList.pushFront
+//@   props C10 C15
+//@   modifies l.front, l.back, l.count, pc.next, pc.prev, old(l.front).prev
+//@   requires awf(l) && pc != nil && anotin(l, pc)
+//@   ensures[count] l.count == old(l.count) + 1
+//@   ensures[first] an(l, 0) == pc
+//@   ensures[shift] forall i int :: 1 <= i && i <= old(l.count) ==> qnth_shift(heap(poolConn.next), pc, i - 1) && qnth_local(old(heap(poolConn.next)), heap(poolConn.next), old(l.front), i - 1) && an(l, i) == old(an(l, i - 1))
+//@   ensures[wf] awf(l)
+
+//@ func activeList.popBack
+//@   props C10 C15
+//@   modifies l.front, l.back, l.count, old(l.back).next, old(l.back).prev, old(l.back.prev).next
+//@   requires awf(l) && l.count > 0
+//@   ensures[count] l.count == old(l.count) - 1
+//@   ensures[keep] forall i int :: 0 <= i && i < l.count ==> qnth_local(old(heap(poolConn.next)), heap(poolConn.next), l.front, i) && an(l, i) == old(an(l, i))
+//@   ensures[wf] awf(l)
+//@   ensures[detached] old(l.back).next == nil && old(l.back).prev == nil
+
+// A pool's connections: every tracked entry holds a backend connection object.
+//@ define okc(s) = ref(conn, s).loop != nil && ref(conn, s).loop.poller != nil
+//@ define live(s) = ref(conn, s).opened && ref(conn, s).outFragQueue != nil && fwf(ref(conn, s).outFragQueue)
+//@ define pwf(p) = awf(p.active) && (forall i int :: 0 <= i && i < p.active.count ==> anp(p.active, i).c != nil && okc(anp(p.active, i).c) && (ref(conn, anp(p.active, i).c).opened ==> live(anp(p.active, i).c)))
+//@ define tracked(p, s) = exists i int :: 0 <= i && i < p.active.count && anp(p.active, i).c == s
+
+//@ bind Pool.Dial = rcproxy/core.engine.Dial
+
+// engine.Dial performs the TCP connect, registers the descriptor and runs eventloop.open (assumed contract):
+// on success the connection is a new, opened backend connection with empty queues.
+//@ func engine.Dial
+//@   flags trusted
+//@   modifies eventloop.connections, allmaps(eng.el.connections), conn.opened
+//@   ensures[ok] result1 == nil ==> result0 != nil && fresh(ref(conn, result0)) && okc(result0) && live(result0) && ref(conn, result0).outFragQueue.count == 0 && fresh(ref(conn, result0).outFragQueue)
+//@   ensures[ok.role] result1 == nil ==> ref(conn, result0).isSlave == isSlave && ref(conn, result0).connType == ConnServer
+//@   ensures[fail] result1 != nil ==> result0 == nil
+//@   ensures[others] forall c *conn :: (result1 != nil || c != ref(conn, result0)) ==> c.opened == old(c.opened)
+
+//@ func Pool.dial
+//@   flags inline
+
+//@ func Pool.Get
+//@   props C04 C10 C15
+//@   modifies p.active.count, p.active.front, p.active.back, poolConn.next, poolConn.prev, poolConn.c, eventloop.connections, allmaps(EngineGlobal.eng.el.connections), conn.opened
+//@   requires pwf(p)
+//@   ensures[wf] pwf(p)
+//@   ensures[tracked@C10,C15] result != nil ==> tracked(p, result)
+//@   ensures[live@C04,C10] result != nil ==> okc(result) && live(result)
+//@   ensures[others] forall c *conn :: !fresh(c) ==> c.opened == old(c.opened)
+//@   ensures[reuse@C10] (old(p.active.count) == 1 && p.maxActive == 1 && !p.closed && ref(conn, old(anp(p.active, 0).c)).opened) ==> result == old(anp(p.active, 0).c) && p.active.count == 1
+//@   loop 0
+//@     modifies p.active.count, p.active.front, p.active.back, poolConn.next, poolConn.prev
+//@     invariant pwf(p) && p.active.count <= old(p.active.count)
+//@     invariant forall i int :: 0 <= i && i < p.active.count ==> an(p.active, i) == old(an(p.active, i))
+//@     invariant forall i int :: p.active.count <= i && i < old(p.active.count) ==> !ref(conn, old(anp(p.active, i).c)).opened
+
+// conn.Close only schedules the close on the event loop (Poller.Trigger); nothing changes at the call.
+//@ func conn.Close
+//@   flags trusted pure
+
+//@ func Pool.Release
+//@   props C15
+//@   modifies p.active.count, p.active.front, p.active.back
+//@   requires pwf(p)
+//@   ensures[empty] !p.closed ==> (p.active.count == 0 && p.active.front == nil && p.active.back == nil)
+//@   ensures[wf] pwf(p)
+//@   loop 0
+//@     invariant pc == nil || (exists k int :: 0 <= k && k < old(p.active.count) && pc == old(an(p.active, k)) && qnth_unfold(heap(poolConn.next), old(p.active.front), k + 1))
+
+//@ func Pool.Close
+//@   props C15
+//@   modifies p.closed, p.active.count, p.active.front, p.active.back
+//@   requires pwf(p) && p.cancel != nil
+//@   ensures[closed] p.closed
+//@   ensures[wf] pwf(p)
+
+//@ func Pool.SetIsSlave
+//@   props C04 C15
+//@   modifies p.isSlave, p.active.count, p.active.front, p.active.back
+//@   requires pwf(p)
+//@   ensures[role@C04] p.isSlave == isSlave
+//@   ensures[drop@C04] (old(p.isSlave) != isSlave && !p.closed) ==> p.active.count == 0
+//@   ensures[wf] pwf(p)
